@@ -281,7 +281,9 @@ class WKCResource(Resource):
                 def matchexp(x, v=v):
                     return x == v
 
-            def values(link):
+            # k, matchexp and values are bound as defaults: the lambdas run
+            # after the loop, when the loop variables hold the last criterion
+            def values(link, k=k):
                 # The values of the link attribute named k. Not using
                 # getattr(link, k): that iterates single-valued attributes
                 # (title, rel, ...) character by character and finds Python
@@ -297,17 +299,19 @@ class WKCResource(Resource):
                 # A missing attribute has no parts (and is not matched even
                 # by "*", RFC 6690 Section 4.1)
                 filters.append(
-                    lambda link: any(
+                    lambda link, matchexp=matchexp, values=values: any(
                         matchexp(part)
                         for value in values(link)
                         for part in value.split(" ")
                     )
                 )
             elif k in ("href",):  # x.href is single valued
-                filters.append(lambda link: matchexp(getattr(link, k)))
+                filters.append(lambda link, matchexp=matchexp: matchexp(link.href))
             else:
                 filters.append(
-                    lambda link: any(matchexp(part) for part in values(link))
+                    lambda link, matchexp=matchexp, values=values: any(
+                        matchexp(part) for part in values(link)
+                    )
                 )
 
         while filters:
